@@ -135,7 +135,11 @@ func (p *WirePlan) Simpler() []Plan {
 				})
 			}
 			if len(v.Meta) > 0 || v.Exp != nil || v.Cause || len(v.Prf) > 0 {
-				mut(func(q *WirePlan) bool { x := q.Tokens[ti].Inv; x.Meta, x.Exp, x.Cause, x.Prf = nil, nil, false, nil; return true })
+				mut(func(q *WirePlan) bool {
+					x := q.Tokens[ti].Inv
+					x.Meta, x.Exp, x.Cause, x.Prf = nil, nil, false, nil
+					return true
+				})
 			}
 		}
 	}
@@ -1790,11 +1794,11 @@ func (e *wireExec) hostileStep(s *XStep, w *wireTok, env *envelope) {
 	case "envelope": // envelopes of hostile shape (nothing here can carry a valid signature)
 		pay := m.payload.Clone()
 		shapes := []*CB{
-			cbArray(cbBytes([]byte{1})),                                                // one element
-			cbArray(),                                                                  // none
-			cbArray(cbBytes([]byte{1}), cbArray(cbInt(1))),                             // second element not a map
-			cbArray(cbBytes([]byte{1}), cbInt(1)),                                      // ... a scalar
-			cbArray(cbText("sig"), cbMap(cbText("h"), cbBytes([]byte{0x34}), cbText(m.tag), pay)), // signature not bytes
+			cbArray(cbBytes([]byte{1})), // one element
+			cbArray(),                   // none
+			cbArray(cbBytes([]byte{1}), cbArray(cbInt(1))),                                                               // second element not a map
+			cbArray(cbBytes([]byte{1}), cbInt(1)),                                                                        // ... a scalar
+			cbArray(cbText("sig"), cbMap(cbText("h"), cbBytes([]byte{0x34}), cbText(m.tag), pay)),                        // signature not bytes
 			cbArray(cbBytes([]byte{1}), &CB{Major: 5, Kids: []*CB{cbInt(1), cbBytes([]byte{0x34}), cbText(m.tag), pay}}), // key not a string
 			cbArray(cbBytes([]byte{1}), cbMap(cbText("h"), cbText("notbytes"), cbText(m.tag), pay)),
 			cbArray(cbBytes([]byte{1}), cbMap(cbText("h"), cbBytes([]byte{0x34}), cbText(m.tag), cbInt(1))), // payload not a map
@@ -1891,7 +1895,7 @@ func (e *wireExec) matchHostile(s *XStep) {
 	if d == nil {
 		return
 	}
-	vals := []*CB{cbUint(1 << 63), cbUint(math.MaxUint64), cbNint(math.MaxUint64), cbInt(5), cbText("x"), cbFloat64(math.Inf(1)), cbFloat64(math.NaN()), cbNull(), cbBytes([]byte{1}), cbArray(cbUint(1 << 63), cbInt(1)), cbMap(cbText("x"), cbUint(1<<63))}
+	vals := []*CB{cbUint(1 << 63), cbUint(math.MaxUint64), cbNint(math.MaxUint64), cbInt(5), cbText("x"), cbFloat64(math.Inf(1)), cbFloat64(math.NaN()), cbNull(), cbBytes([]byte{1}), cbArray(cbUint(1<<63), cbInt(1)), cbMap(cbText("x"), cbUint(1<<63))}
 	v := vals[s.Val%len(vals)]
 	kv := []*CB{}
 	for _, k := range []string{"n", "s", "l", "m", "f", "b", "a", "big"} {
